@@ -171,6 +171,7 @@ def check_cfg(ctx, fx, cfg):
     for name, a in ab.items():
         ctx.require(not a["viols"], "R10.3", "abort-all:%s@%s" % (name, cfg), "not every timer handle is aborted", fn=name, site=a["fn"]["loc"])
     c06.check_drop_aborts(ctx, fx, cfg, ab, "R10.3")
+    c06.check_timer_list(ctx, fx, cfg, ab, "R10.3", "R10.3")
     regs = [r for r in timers.registrars(fx) if r.startswith("context::")]
     for r in regs:
         c06.check_registrar(ctx, fx, fx.fn(r), cfg)
